@@ -295,6 +295,23 @@ static void __attribute__((noinline)) poisonStack(){
 	for(std::size_t i = 0; i != 8192; ++i) a[i] = -1e300;
 	asm volatile("" : : "r"(a) : "memory");
 }
+// diagnosis for finding F-C10-16: would the bracketing loop of wolfecubic run through all its 25 tenfold expansions
+// without ever leaving through a `break` (every trial point decreases sufficiently, has a negative slope and fails
+// the curvature test)?  Then the C++ reads its never-assigned bracket arrays.  Re-computed here from the objective.
+static bool wolfeBracketExhausts(Obj const& f, RealVector const& p, RealVector const& d, double value, RealVector const& g, double t){
+	double gtd = 0; for(std::size_t k = 0; k != p.size(); ++k) gtd += g(k) * d(k);
+	double fPrev = value;
+	for(unsigned iter = 1; iter <= 25; ++iter){
+		RealVector x(p.size()), gn; for(std::size_t k = 0; k != p.size(); ++k) x(k) = p(k) + t * d(k);
+		double fNew = f.both(x, &gn);
+		double gtdNew = 0; for(std::size_t k = 0; k != p.size(); ++k) gtdNew += gn(k) * d(k);
+		if(fNew > value + 1e-4 * t * gtd || (iter > 1 && fNew >= fPrev)) return false;
+		if(std::fabs(gtdNew) <= -0.9 * gtd) return false;
+		if(gtdNew >= 0) return false;
+		fPrev = fNew; t *= 10;
+	}
+	return true;
+}
 static double g_lastDecrease = 0;   // value decrease of the most recent `step` (for the convergence diagnosis)
 
 int main(){
@@ -399,12 +416,17 @@ int main(){
 				out << "ls pt=" << showVec(p) << " val=" << vh::exactDouble(v) << " st=" << n << hexVec(p) << "," << hexd(v) << hexVec(g);
 				bool finite = std::isfinite(v);
 				for(std::size_t k = 0; k != n; ++k) finite = finite && std::isfinite(p(k));
-				if(!finite) out << " !oracle ls-non-finite";
-				RealVector gre; double re = f->both(p, &gre);
-				if(finite && !sameBits(re, v)) out << " !oracle ls-value-not-f-of-point";
-				if(finite && !sameVec(gre, g)) out << " !oracle ls-gradient-not-grad-of-point";
-				if(finite && gtd <= 0 && !(v <= v0)) out << " !oracle ls-increased";
-				if(sameVec(p, p0) && (!sameBits(v, v0) || !sameVec(g, g0))) out << " !oracle ls-unchanged-point-changed-state";
+				RealVector gre; double re = finite ? f->both(p, &gre) : 0.0;
+				std::ostringstream orc;
+				if(!finite) orc << " !oracle ls-non-finite";
+				if(finite && !sameBits(re, v)) orc << " !oracle ls-value-not-f-of-point";
+				if(finite && !sameVec(gre, g)) orc << " !oracle ls-gradient-not-grad-of-point";
+				if(finite && gtd <= 0 && !(v <= v0)) orc << " !oracle ls-increased";
+				if(sameVec(p, p0) && (!sameBits(v, v0) || !sameVec(g, g0))) orc << " !oracle ls-unchanged-point-changed-state";
+				// known finding F-C10-16: any of the above in a call whose bracketing loop provably never assigns the bracket
+				if(!orc.str().empty() && type == 1 && wolfeBracketExhausts(*f, p0, d, v0, g0, t0))
+					out << " !oracle ls-wolfecubic-uninitialised-bracket";
+				else out << orc.str();
 			}else if(t[0] == "converged"){
 				// numerical convergence oracle (strictly convex quadratics): the KKT residual of the (box-constrained) problem,
 				//   r_i = x_i - clamp(x_i - g_i, l_i, u_i)      (= g_i without a box),
